@@ -700,9 +700,9 @@ func c01StatScenario(dotu bool) Scenario {
 				res.Nontrivial++
 				// every order of the two-step form with tag settings: the tag is set before
 				// the count, after it, or both; the count may be lowered a second time
-				for order := 0; order < 8; order++ {
-					before, after, twice := order&1 != 0, order&2 != 0, order&4 != 0
-					if twice && cnt == 0 {
+				for order := 0; order < 16; order++ {
+					before, after, twice, grow := order&1 != 0, order&2 != 0, order&4 != 0, order&8 != 0
+					if twice && cnt == 0 || grow && !twice {
 						continue
 					}
 					fc := go9p.NewFcall(uint32(11 + total))
@@ -717,11 +717,17 @@ func c01StatScenario(dotu bool) Scenario {
 						tag = 0x1234
 						go9p.SetTag(fc, tag)
 					}
-					go9p.SetRreadCount(fc, uint32(cnt))
 					final := cnt
-					if twice {
-						final = cnt / 2
-						go9p.SetRreadCount(fc, uint32(final))
+					if grow {
+						// a provisional smaller count (0 included) first, the real one afterwards
+						go9p.SetRreadCount(fc, uint32(cnt/2))
+						go9p.SetRreadCount(fc, uint32(cnt))
+					} else {
+						go9p.SetRreadCount(fc, uint32(cnt))
+						if twice {
+							final = cnt / 2
+							go9p.SetRreadCount(fc, uint32(final))
+						}
 					}
 					if after {
 						tag = 0x00fe
@@ -862,7 +868,7 @@ func c01StatScenario(dotu bool) Scenario {
 				}
 			}
 		}
-		res.Samples = append(res.Samples, "PackDir/UnpackDir over the stat domains alone and in concatenations of up to 3; payloads aliasing the message's own buffer; walk element lists taken from the recycled message's own fields; stat records of 65534..65537 bytes; InitRread(n)+SetRreadCount(c) for all c<=n<=24, in every order with SetTag before/after and a second lower count")
+		res.Samples = append(res.Samples, "PackDir/UnpackDir over the stat domains alone and in concatenations of up to 3; payloads aliasing the message's own buffer; walk element lists taken from the recycled message's own fields; stat records of 65534..65537 bytes; InitRread(n)+SetRreadCount(c) for all c<=n<=24, in every order with SetTag before/after and a second lower or higher count")
 		return res
 	}}
 }
